@@ -1,6 +1,8 @@
 import Siot.Lemmas.Sync
 import Siot.Lemmas.SyncExchange
 import Siot.Gen.Sync
+import Siot.Lemmas.SyncLoop
+import Siot.Gen.SyncLoop
 /-
 C02 — Linked instances converge on the shared device tree.
 Property theorems only; helper lemmas live in Siot/Lemmas/Sync.lean.
@@ -11,6 +13,10 @@ any interleaving of the pass's own writes; (2) the exchange of points between th
 node (or edge) leaves BOTH sides with exactly the newest point of every identity
 (`c02_points_converge`). What is NOT proved: that the hash comparison leads the pass to every node
 that differs (it does not: open findings), i.e. convergence of whole trees — partial.
+(3) The loop around the pass (`SyncClient.Run`, model `Siot.SyncLoop`): for every sequence of link events, timer
+firings, local writes and configuration changes, a catch-up pass runs at every (re)connection and then periodically for
+as long as the link is reported up, local writes are forwarded exactly while it is, and a client that is not disabled
+always has an upstream connection or a reconnection pending (`c02_loop_*`).
 -/
 namespace Siot.Sync
 open Siot Siot.Store
@@ -120,6 +126,36 @@ example :
     let U : List Point := [{ type := [118], key := [48], time := 3, value := 2 }, { type := [100], key := [48], time := 7, text := [120] }, { type := [116], key := [48], time := 4 }]
     (syncPts L U).1.map (·.type) = [[118], [108]] ∧ (syncPts L U).2.map (·.type) = [[100], [116]] := by decide
 
+/-- **C02 (an agreed node is left alone).** When the downstream and the upstream copy of a node (or edge) hold the same
+points — the state `c02_points_converge` establishes — the exchange selects nothing for either direction: a pass over
+converged copies writes nothing, on either side, so agreement once reached is kept by every later pass (together with
+`c02_no_write_lost`: only a new write can move it). -/
+theorem c02_agreed_node_is_quiet (L U : List Point) (hL : IdUnique L) (hU : IdUnique U) (h : ∀ p, p ∈ L ↔ p ∈ U) :
+    syncPts L U = ([], []) := by
+  have h1 : (syncPts L U).1 = [] := by
+    rw [List.eq_nil_iff_forall_not_mem]
+    intro p hp
+    obtain ⟨hpL, hc⟩ := (mem_toUp L U hU p).mp hp
+    have hpU := (h p).mp hpL
+    rcases hc with ⟨u, hu, hs, ht⟩ | hnone
+    · have : u = p := idUnique_eq U hU u p hu hpU hs
+      subst this; omega
+    · have := hnone p hpU
+      rw [sameId_refl] at this
+      cases this
+  have h2 : (syncPts L U).2 = [] := by
+    rw [List.eq_nil_iff_forall_not_mem]
+    intro q hq
+    obtain ⟨hqU, hc⟩ := (mem_toDown L U hU q).mp hq
+    have hqL := (h q).mpr hqU
+    rcases hc with ⟨l, hl, hs, ht⟩ | hnone
+    · have : q = l := idUnique_eq L hL q l hqL hl hs
+      subst this; omega
+    · have := hnone q hqL
+      rw [sameId_refl] at this
+      cases this
+  exact Prod.ext h1 h2
+
 /-- tie A: syncNode / sendNodesRemote / sendNodesLocal have the shape the model transcribes (after the repair:
 children are listed with deleted ones included; the undelete step is for the local root device only). -/
 theorem gen_sync_pinned :
@@ -148,3 +184,73 @@ theorem gen_sync_pinned :
   decide
 
 end Siot.Sync
+
+namespace Siot.SyncLoop
+
+/-- **C02 (catch-up runs at every connection and periodically while the link is up).** Whatever the sequence of link
+reports (connected / disconnected / reconnected), timer firings, local writes and configuration changes since the
+client started: (1) the catch-up ticker runs, with the configured period (at least one second), exactly when the last
+link report said "up" — so passes keep coming for as long as the link is up, and none are attempted while it is down;
+(2) every report "up" is answered at once with a catch-up pass (this is what repairs the state after an outage), and
+every ticker firing is a pass. -/
+theorem c02_loop_catch_up_while_connected (disabled : Bool) (period : Nat) (evs : List Ev) :
+    let s := (run (init disabled period) evs).1
+    s.ticker = (if lastConn evs false then some s.period else none) ∧ 1 ≤ s.period ∧
+    (∀ subOk, Act.pass ∈ (step s (.conn true subOk)).2) ∧ (step s .tick).2 = [Act.pass] := by
+  intro s
+  have hinv := inv_run evs _ (inv_init disabled period)
+  have hc : s.connected = lastConn evs false := connected_run evs (init disabled period)
+  refine ⟨by rw [← hc]; exact hinv.ticker, hinv.period, ?_, rfl⟩
+  intro subOk
+  show Act.pass ∈ (if s.initialSub = true then _ else _ : St × List Act).2
+  by_cases hi : s.initialSub = true
+  · simp only [hi, if_true]; exact List.mem_cons_self ..
+  · simp only [hi, Bool.false_eq_true, if_false]; exact List.mem_cons_self ..
+
+/-- **C02 (local writes are forwarded exactly while the link is up).** After any history, a local node-point or
+edge-point message is sent on to the upstream exactly when the last link report said "up"; what is written while
+the link is down is left to the next catch-up pass (`c02_loop_catch_up_while_connected`). -/
+theorem c02_loop_forward_iff_connected (disabled : Bool) (period : Nat) (evs : List Ev) :
+    let s := (run (init disabled period) evs).1
+    (step s .localNode).2 = (if lastConn evs false then [Act.fwdNode] else []) ∧
+    (step s .localEdge).2 = (if lastConn evs false then [Act.fwdEdge] else []) := by
+  intro s
+  have hc : s.connected = lastConn evs false := connected_run evs (init disabled period)
+  exact ⟨by rw [← hc]; rfl, by rw [← hc]; rfl⟩
+
+/-- **C02 (a reconnection is always pending).** After any history, a client that is not disabled has an upstream
+connection object (the NATS library reconnects it by itself and reports through the callbacks) or an armed connect
+timer: a failed dial re-arms the timer (30 s), a change of uri / token / disabled flag drops the connection and re-arms
+it (10 ms). And after such a change the subscriptions to the upstream are set up again at the next connection. -/
+theorem c02_loop_redial_pending (disabled : Bool) (period : Nat) (evs : List Ev) :
+    let s := (run (init disabled period) evs).1
+    (s.disabled = true ∨ s.remote = true ∨ s.connectTimer.isSome = true) ∧
+    (∀ d subOk, Act.subInitial ∈ (step (step s (.cfgRestart d)).1 (.conn true subOk)).2) := by
+  intro s
+  exact ⟨(inv_run evs _ (inv_init disabled period)).redial, fun d subOk => by simp [step]⟩
+
+/-- non-vacuity: connect, lose the link, get it back, while writes arrive -/
+example :
+    (run (init false 0) [.connectTimer true, .conn true true, .localNode, .conn false false, .localNode, .tick, .conn true true, .localEdge]).2 =
+      [.dial, .pass, .subInitial, .fwdNode, .pass, .pass, .fwdEdge] := by decide
+
+/-- tie A: the select loop of Run, `connect` and `disconnect` have the shape the model transcribes -/
+theorem gen_syncloop_pinned :
+    Gen.syncRunSelect = ["<-up.stop => ", "<-connectTimer.C => connect,connectTimer.Reset(30 * time.Second)", "<-syncTicker.C => syncNode",
+      "conn := <-up.chConnected => syncTicker.Reset(time.Duration(up.config.Period) * time.Second),syncNode,subscribeRemoteNode,syncTicker.Stop",
+      "pts := <-chLocalNodePoints => SendNodePoints", "pts := <-chLocalEdgePoints => SendEdgePoints",
+      "pts := <-up.newPoints => disconnect,connectTimer.Reset(10 * time.Millisecond),checkPeriod,syncTicker.Reset(time.Duration(up.config.Period) * time.Second)",
+      "pts := <-up.newEdgePoints => ", "edge := <-up.chNewEdge => sendNodesLocal,subscribeRemoteNode"] ∧
+    Gen.syncRunIfs = ["err != nil", "err != nil", "err != nil", "err != nil", "err != nil", "p.Type == data.PointTypeTombstone && p.Value == 0",
+      "err != nil", "up.config.Period < 1", "err != nil", "err != nil", "err != nil", "err != nil", "conn", "err != nil", "!up.initialSub",
+      "err != nil", "connected", "err != nil", "connected", "err != nil", "err != nil", "connected", "up.config.SyncCountReset", "err != nil",
+      "err != nil", "!edge.local", "edge.parent == up.rootRemote.ID", "err != nil", "len(nodes) > 0", "err != nil", "n.Type == \"\"", "err != nil",
+      "err != nil", "err != nil", "err != nil"] ∧
+    Gen.syncRunAssigns = ["up.config.Period = 20", "connected := false", "up.initialSub = false", "connected = conn", "up.initialSub = true",
+      "up.rootRemote = data.NodeEdge{}"] ∧
+    Gen.syncConnectSends = ["up.chConnected <- true", "up.chConnected <- false", "up.chConnected <- true"] ∧
+    Gen.syncConnectIfs = ["up.config.Disabled", "err != nil"] ∧
+    Gen.syncDisconnectAssigns = ["up.initialSub = false", "up.subRemoteUp = nil", "up.ncRemote = nil", "up.rootRemote = data.NodeEdge{}"] := by
+  exact ⟨rfl, rfl, rfl, rfl, rfl, rfl⟩
+
+end Siot.SyncLoop
